@@ -759,6 +759,14 @@ def r_ret(ctx):
     if ok:
         name = rets[0].value.id
         defs = [s for s in flow.stmts_of(rec, ast.Assign) if any(isinstance(t, ast.Name) and t.id == name for t in s.targets)]
+        for _ in range(4):
+            # `x = y` with y a local bound once: look at the definition of y (e.g. the result of an inlined helper)
+            if len(defs) == 1 and isinstance(defs[0].value, ast.Name):
+                d2 = [s for s in flow.stmts_of(rec, ast.Assign) if any(isinstance(t, ast.Name) and t.id == defs[0].value.id for t in s.targets)]
+                if d2:
+                    defs = d2
+                    continue
+            break
         from_dict = [s for s in defs if isinstance(s.value, ast.Subscript) and is_const(s.value.slice, 1)]
         zero = [s for s in defs if is_const(s.value) and s.value.value in (0, 0.0)]
         via_get = [s for s in defs if isinstance(s.value, ast.Call) and call_name(s.value) == "get" and len(s.value.args) == 2 and is_const(s.value.args[0], 1)
